@@ -133,16 +133,23 @@ Fixpoint route_topics (c : cluster) (ts : tps) (cur : broker) {struct ts} : outc
 Definition route_leader (c : cluster) (ts : tps) : outcome broker := route_topics c ts no_broker.
 
 (* protocol/listoffsets/listoffsets.go:37  Request.Broker: looks only at
-   r.Topics[0].Partitions[0]; scans the VALUES of cluster.Topics[topic].Partitions for
-   p.ID == partition; returns cluster.Brokers[p.Leader] (zero value when absent) and never
-   an error; Broker{ID:-1} when the topic or partition is not in the layout. *)
+   r.Topics[0].Partitions[0]; ErrNoTopic when the topic is not in the layout; scans the VALUES
+   of the topic's Partitions for p.ID == partition (ErrNoPartition when none); returns
+   cluster.Brokers[p.Leader], or ErrNoLeader when that broker is absent. *)
 Definition route_listoffsets (c : cluster) (ts : tps) : outcome broker :=
   match ts with
   | (tn, p :: _) :: _ =>
-      let parts := match get_topic c tn with Some tp => t_parts tp | None => [] end in
-      match find (fun kv => p_id (snd kv) =? p) parts with
-      | Some kv => Ok (get_broker_or_zero c (p_leader (snd kv)))
-      | None => Ok no_broker
+      match get_topic c tn with
+      | None => Err (ENoTopic tn)
+      | Some tp =>
+          match find (fun kv => p_id (snd kv) =? p) (t_parts tp) with
+          | Some kv =>
+              match get_broker c (p_leader (snd kv)) with
+              | Some b => Ok b
+              | None => Err (ENoLeader tn p)
+              end
+          | None => Err (ENoPartition tn p)
+          end
       end
   | _ => Panic
   end.
@@ -215,7 +222,8 @@ Record fc_answer := { fc_err : Z; fc_node : Z }.
 Inductive reject_reason :=
 | RejRoute (e : rerr)           (* Broker() returned an error *)
 | RejBrokerNotAvailable         (* grabBrokerConn: no connection group for that id *)
-| RejCoordinatorLookup.         (* the find-coordinator exchange itself failed *)
+| RejCoordinatorLookup          (* the find-coordinator exchange itself failed *)
+| RejCoordinatorError (code : Z). (* the find-coordinator response carries an error code *)
 
 (* what went on the wire for one message: (connection, api key) in order, then how it ended *)
 Inductive send_result :=
@@ -235,8 +243,8 @@ Definition send_to (conns : list (Z * broker)) (pre : list (conn_target * Z)) (i
   end.
 
 (* [fc]: the outcome of the find-coordinator exchange when one is made: None = it failed
-   (connection error), Some a = the response.  The error code of the response is NOT
-   examined by the code: brokerID = the NodeID field of the response. *)
+   (connection error), Some a = the response.  A non-zero ErrorCode rejects the request with
+   that Kafka error; otherwise brokerID = the NodeID field of the response. *)
 Definition send_request (c : cluster) (conns : list (Z * broker)) (r : request_kind)
            (fc : option fc_answer) : send_result :=
   match route c r with
@@ -250,7 +258,9 @@ Definition send_request (c : cluster) (conns : list (Z * broker)) (r : request_k
           let pre := [(TControl, K_FindCoordinator)] in
           match fc with
           | None => Rejected pre RejCoordinatorLookup
-          | Some a => send_to conns pre (fc_node a) api
+          | Some a =>
+              if negb (fc_err a =? 0) then Rejected pre (RejCoordinatorError (fc_err a))
+              else send_to conns pre (fc_node a) api
           end
       | _ => send_to conns [] (-1) (api_of r)
       end
@@ -486,7 +496,7 @@ Definition discover_step (ph : dphase) (l : dlabel) : option dphase :=
    (BrokerMessage / GroupMessage / TransactionalMessage, tested in this order by sendRequest) *)
 Inductive msg_class := CBroker | CGroup | CTxn | CPlain.
 Definition broker_message_apis : list Z := [0; 1; 2; 16; 19; 20; 29; 30; 31; 32; 33; 37; 43; 44; 45; 46; 48; 49; 50; 51].
-Definition group_message_apis : list Z := [8; 9; 11; 13; 14; 15; 28; 42; 47].
+Definition group_message_apis : list Z := [8; 9; 11; 12; 13; 14; 15; 28; 42; 47].
 Definition txn_message_apis : list Z := [22; 24; 25; 26].
 Definition splitter_apis : list Z := [2; 15; 16; 32].
 Definition message_class (api : Z) : msg_class :=
